@@ -323,7 +323,8 @@ def capabilities_rule(prog: Program, rep: Report) -> None:
         is1 = ("cmp", "==", onoff, c(1)) in pcs
         not1 = ("cmp", "!=", onoff, c(1)) in pcs
         tv = ho.fields.get("_on_off_type")
-        if not ((is1 and tv == c(True)) or (not1 and tv == c(False))):
+        from ..interp import mkcmp as _mk
+        if not ((is1 and tv == c(True)) or (not1 and tv == c(False)) or tv == _mk("==", onoff, c(1))):
             bad_t = f"toggle flag is {T.show(tv) if tv else None} on a path where OnOffType == 1 is {is1} / != 1 is {not1}"
         # separate swing
         sv = ho.fields.get("_separated_swing_command")
@@ -358,7 +359,14 @@ def capabilities_rule(prog: Program, rep: Report) -> None:
             gmax = [g for g in pcs if isinstance(g, tuple) and g[0] == "cmp" and g[2] == t and T.is_c(g[3]) and g[1] in (">", "<=") and g[3][1] < 0]
             gmin = [g for g in pcs if isinstance(g, tuple) and g[0] == "cmp" and g[2] == t and T.is_c(g[3]) and g[1] in ("<", ">=") and g[3][1] > 0]
             fmax, fmin = ho.fields.get("_max_temp"), ho.fields.get("_min_temp")
-            if not gmax or not gmin:
+
+            def _ext(v: Any, fn: str, neg_start: bool) -> bool:
+                # max(start, t) / min(start, t) with a constant start value: the bound is always updated from t
+                return (isinstance(v, tuple) and v[:2] == ("app", fn) and len(v) == 4 and {v[2], v[3]} >= {t}
+                        and any(T.is_c(x) and isinstance(x[1], int) and ((x[1] < 0) if neg_start else (x[1] > 0)) for x in (v[2], v[3])))
+            if _ext(fmax, "max", True) and _ext(fmin, "min", False):
+                pass   # both bounds follow the temperature unconditionally: independent by construction
+            elif not gmax or not gmin:
                 bad_r = (f"for a wave with a numeric temperature the {'upper' if not gmax else 'lower'} bound of the range is not examined on a path "
                          f"(guards {[T.show(g)[:60] for g in pcs if isinstance(g, tuple) and g[0] == 'cmp' and g[2] == t]}): a temperature that extends one bound can never extend the other, "
                          f"so the first temperature seen (max starts below min) updates only one of them and the reported range is wrong")
